@@ -5,7 +5,7 @@ DESCRIPTION = {
     "level": "fault_enumeration",
     "rule": ("Two sessions (originator, responder) with cryptobox KeyRings are joined through a scripted router (both frameworks, several serializers).  Hypothesis draws the "
              "keyring layout {default key, per-prefix keys, originator-only / responder-only key halves, mismatching keys}, URIs/args/kwargs from the JSON domain (bytes, nesting, "
-             "unicode) carrying a unique marker, and the direction {publish->event, call->invocation, yield->result, error}.  Fault enumeration in transit: every single-byte "
+             "unicode) carrying a unique marker (also requests without any argument, whose result still carries it), and the direction {publish->event, call->invocation, yield->result, error}.  Fault enumeration in transit: every single-byte "
              "alteration of the ciphertext (each position x a drawn non-zero XOR; thorough: several XOR values), truncations, swapping the envelope URI (ciphertext of a.b delivered "
              "under registration/subscription a.c) and replay under another key.  Oracle: untampered => handler/endpoint/caller receive exactly the sent args/kwargs, the WAMP "
              "message has enc_algo='cryptobox', a payload and no args/kwargs, and the serialized bytes do not contain the marker; tampered / wrong key / URI mismatch => the "
